@@ -88,6 +88,10 @@ func (u *Unit) mapRead(st *State, pc *Term, mt *types.Map, m, k *Term) (val *SV,
 	val = u.unflatten(mt.Elem(), leaves, &p)
 	// type invariants of stored values
 	u.assumeLeafInvs(val, mt.Elem(), st, c.And(pc, found))
+	if _, ok := mt.Key().Underlying().(*types.Pointer); ok && ks == SRef {
+		// a key held by a map is nil or a live object of the key type
+		u.assumeTypeInv(k, mt.Key(), st, c.And(pc, found))
+	}
 	// a map that holds a key is not empty (ghost length vs domain)
 	if !found.open && !m.open {
 		u.assume(pc, c.Implies(found, c.Le(c.Int(1), c.Select(u.mapLenArr(st, ks), m))))
